@@ -39,6 +39,10 @@ type caseA struct {
 	Ops     []op            `json:"ops"`
 	Status  int             `json:"receiver_status,omitempty"` // what the receiver answers a notification with (0 = 200): any 2xx acknowledges it
 	Reply   string          `json:"receiver_reply,omitempty"`  // the body of that answer (a receiver may well say "ok")
+	// Versioned: the gateway has a versions store and the bucket keeps versions: the notification of a write names the
+	// version the response announced (x-amz-version-id), that of a delete the delete marker; copies with an odd index
+	// name the version of their source explicitly
+	Versioned bool `json:"versioned,omitempty"`
 }
 
 type record struct {
@@ -128,6 +132,7 @@ type expect struct {
 	Event, Key string
 	Size       int64
 	ETag       string
+	Version    string // "" = not judged
 }
 
 func runA(c caseA) error { _, err := execA(c); return err }
@@ -148,7 +153,7 @@ func execA(c caseA) (st stats, err error) {
 		return st, fmt.Errorf("SETUP: %v", err)
 	}
 	defer sb.Remove()
-	cfg := gw.Config{SB: sb, WebhookURL: url}
+	cfg := gw.Config{SB: sb, WebhookURL: url, Versioning: c.Versioned}
 	if c.Filter != nil {
 		ff := filepath.Join(sb.Area, "filter.json")
 		b, _ := json.Marshal(c.Filter)
@@ -167,6 +172,12 @@ func execA(c caseA) (st stats, err error) {
 	if r := root.MustCall("PUT", "/"+bkt, nil, nil, nil); !r.OK() {
 		return st, fmt.Errorf("SETUP: create bucket: %v", r)
 	}
+	if c.Versioned {
+		if r := root.MustCall("PUT", "/"+bkt, s3c.Q("versioning", ""), nil, []byte("<VersioningConfiguration><Status>Enabled</Status></VersioningConfiguration>")); !r.OK() {
+			return st, fmt.Errorf("SETUP: enable versioning: %v", r)
+		}
+	}
+	srcVer := map[string]string{}
 	root.CreateUser("mallory", "mallory-secret-0123456789", "user", 0, 0)
 	mallory := root.As(s3c.Creds{Access: "mallory", Secret: "mallory-secret-0123456789"})
 	// mallory may batch-delete the keys ending in .b0 ... .b3 only (per-key decisions)
@@ -190,7 +201,10 @@ func execA(c caseA) (st stats, err error) {
 	putPlain := func(cl *s3c.Client, key string, data []byte) bool {
 		r, err := cl.Call("PUT", "/"+bkt+"/"+key, nil, nil, data)
 		if err == nil && r.OK() {
-			add(expect{"s3:ObjectCreated:Put", key, int64(len(data)), s3c.MD5Hex(data)})
+			add(expect{"s3:ObjectCreated:Put", key, int64(len(data)), s3c.MD5Hex(data), r.Header.Get("x-amz-version-id")})
+			wmu.Lock()
+			srcVer[key] = r.Header.Get("x-amz-version-id")
+			wmu.Unlock()
 			return true
 		}
 		return false
@@ -245,13 +259,20 @@ func execA(c caseA) (st stats, err error) {
 					}
 					r, err = cl.Call("PUT", "/"+b+"/"+key, nil, h, data)
 					if err == nil && r.OK() {
-						add(expect{"s3:ObjectCreated:Put", key, int64(len(data)), s3c.MD5Hex(data)})
+						add(expect{"s3:ObjectCreated:Put", key, int64(len(data)), s3c.MD5Hex(data), r.Header.Get("x-amz-version-id")})
 					}
 				case "copy":
-					r, err = cl.Call("PUT", "/"+b+"/"+key, nil, []s3c.KV{{K: "x-amz-copy-source", V: s3c.URIEncode(bkt+"/"+key+".src", true)}}, nil)
+					csrc := s3c.URIEncode(bkt+"/"+key+".src", true)
+					wmu.Lock()
+					sv := srcVer[key+".src"]
+					wmu.Unlock()
+					if c.Versioned && i%2 == 1 && sv != "" {
+						csrc += "?versionId=" + sv
+					}
+					r, err = cl.Call("PUT", "/"+b+"/"+key, nil, []s3c.KV{{K: "x-amz-copy-source", V: csrc}}, nil)
 					if err == nil && r.OK() {
 						src := body(i, 10+o.Size)
-						add(expect{"s3:ObjectCreated:Copy", key, int64(len(src)), s3c.MD5Hex(src)})
+						add(expect{"s3:ObjectCreated:Copy", key, int64(len(src)), s3c.MD5Hex(src), r.Header.Get("x-amz-version-id")})
 					}
 				case "mpu":
 					ir, e := cl.Call("POST", "/"+b+"/"+key, s3c.Q("uploads", ""), nil, nil)
@@ -268,27 +289,27 @@ func execA(c caseA) (st stats, err error) {
 					}
 					r, err = cl.Call("POST", "/"+b+"/"+key, s3c.Q("uploadId", ini.UploadId), nil, s3c.CompleteXML([]s3c.Part{{PartNumber: 1, ETag: s3c.ETag(pr.Header.Get("ETag"))}}))
 					if err == nil && r.OK() && !strings.Contains(string(r.Body), "<Error>") {
-						add(expect{"s3:ObjectCreated:CompleteMultipartUpload", key, int64(len(data)), ""})
+						add(expect{"s3:ObjectCreated:CompleteMultipartUpload", key, int64(len(data)), "", r.Header.Get("x-amz-version-id")})
 					}
 				case "putdir":
 					r, err = cl.Call("PUT", "/"+b+"/"+key+".dir/", nil, nil, nil)
 					if err == nil && r.OK() {
-						add(expect{"s3:ObjectCreated:Put", key + ".dir/", 0, s3c.MD5Hex(nil)})
+						add(expect{"s3:ObjectCreated:Put", key + ".dir/", 0, s3c.MD5Hex(nil), ""})
 					}
 				case "deldir":
 					r, err = cl.Call("DELETE", "/"+b+"/"+key+".dir/", nil, nil, nil)
 					if err == nil && r.OK() {
-						add(expect{"s3:ObjectRemoved:Delete", key + ".dir/", -1, ""})
+						add(expect{"s3:ObjectRemoved:Delete", key + ".dir/", -1, "", ""})
 					}
 				case "tagdir":
 					r, err = cl.Call("PUT", "/"+b+"/"+key+".dir/", s3c.Q("tagging", ""), nil, s3c.TaggingXML([]s3c.Tag{{Key: "k", Value: "v"}}))
 					if err == nil && r.OK() {
-						add(expect{"s3:ObjectTagging:Put", key + ".dir/", -1, ""})
+						add(expect{"s3:ObjectTagging:Put", key + ".dir/", -1, "", ""})
 					}
 				case "delete":
 					r, err = cl.Call("DELETE", "/"+b+"/"+key+".src", nil, nil, nil)
 					if err == nil && r.OK() {
-						add(expect{"s3:ObjectRemoved:Delete", key + ".src", -1, ""})
+						add(expect{"s3:ObjectRemoved:Delete", key + ".src", -1, "", r.Header.Get("x-amz-version-id")})
 					}
 				case "batch":
 					var kv []s3c.KV
@@ -305,7 +326,7 @@ func execA(c caseA) (st stats, err error) {
 						if e := s3c.ParseXML(r, &dr); e == nil {
 							del := map[string]bool{}
 							for _, d := range dr.Deleted {
-								add(expect{"s3:ObjectRemoved:DeleteObjects", d.Key, -1, ""})
+								add(expect{"s3:ObjectRemoved:DeleteObjects", d.Key, -1, "", ""})
 								del[d.Key] = true
 							}
 							wmu.Lock()
@@ -320,12 +341,12 @@ func execA(c caseA) (st stats, err error) {
 				case "tagput":
 					r, err = cl.Call("PUT", "/"+b+"/"+key+".src", s3c.Q("tagging", ""), nil, s3c.TaggingXML([]s3c.Tag{{Key: "k", Value: "v"}}))
 					if err == nil && r.OK() {
-						add(expect{"s3:ObjectTagging:Put", key + ".src", -1, ""})
+						add(expect{"s3:ObjectTagging:Put", key + ".src", -1, "", ""})
 					}
 				case "tagdel":
 					r, err = cl.Call("DELETE", "/"+b+"/"+key+".src", s3c.Q("tagging", ""), nil, nil)
 					if err == nil && r.OK() {
-						add(expect{"s3:ObjectTagging:Delete", key + ".src", -1, ""})
+						add(expect{"s3:ObjectTagging:Delete", key + ".src", -1, "", ""})
 					}
 				}
 				if err != nil {
@@ -433,6 +454,13 @@ func execA(c caseA) (st stats, err error) {
 			}
 			return st, fmt.Errorf("notification %s for key %q reports ETag %s, the object's is %s", r.EventName, e.Key, et, e.ETag)
 		}
+		if e.Version != "" && (r.S3.Object.VersionId == nil || *r.S3.Object.VersionId != e.Version) {
+			v := "<nil>"
+			if r.S3.Object.VersionId != nil {
+				v = *r.S3.Object.VersionId
+			}
+			return st, fmt.Errorf("notification %s for key %q names version %q, the response of that request announced version %q (bucket with versioning enabled)", r.EventName, e.Key, v, e.Version)
+		}
 	}
 	for id, n := range wantN {
 		if gotN[id] != n {
@@ -489,6 +517,7 @@ func TestC19A(t *testing.T) {
 			}
 		}
 		c.Clients = rapid.SampledFrom([]int{1, 2, 4, 8, 16}).Draw(t, "clients")
+		c.Versioned = rapid.IntRange(0, 2).Draw(t, "versioned") == 0
 		c.Status = rapid.SampledFrom([]int{0, 0, 200, 204, 202, 201}).Draw(t, "receiver_status")
 		c.Reply = rapid.SampledFrom([]string{"", "", "ok", "{\"status\":\"received\"}\n"}).Draw(t, "receiver_reply")
 		maxOps := 40
@@ -520,7 +549,10 @@ func TestC19A(t *testing.T) {
 		} else {
 			cls = append(cls, "filter:file")
 		}
-		ev.Case(fmt.Sprintf("%v|%d|%+v", c.Filter, c.Clients, c.Ops), st.Concurrent && st.Failed > 0, cls...)
+		if c.Versioned {
+			cls = append(cls, "versioned-bucket")
+		}
+		ev.Case(fmt.Sprintf("%v|%d|%v|%+v", c.Filter, c.Clients, c.Versioned, c.Ops), st.Concurrent && st.Failed > 0, cls...)
 		ev.Sample(cls[0], 1, c)
 		if err != nil {
 			if strings.HasPrefix(err.Error(), "SETUP") {
